@@ -25,6 +25,7 @@ import (
 	"crypto"
 	"crypto/rand"
 	"encoding/base64"
+	"encoding/binary"
 	"encoding/json"
 	"errors"
 	"fmt"
@@ -1540,12 +1541,13 @@ func c08RunFlood(t *testing.T, h *c08History, c c08Conc, transport string, flood
 		t.Fatal(err)
 	}
 	var serial uint64
-	nonce := kit.NewRng(kit.Seed()*7919 + int64(flood)).Uint64()
+	stream := kit.NewRng(kit.Seed()*7919 + int64(flood))
 	freshKey := func() (k [32]byte) {
 		serial++
-		x := kit.NewRng(int64(serial ^ nonce))
-		copy(k[:], x.Bytes(32))
-		k[0], k[1], k[2], k[3] = byte(serial), byte(serial>>8), byte(serial>>16), byte(serial>>24) // distinct for sure
+		for j := 0; j < 32; j += 8 {
+			binary.LittleEndian.PutUint64(k[j:], stream.Uint64())
+		}
+		binary.LittleEndian.PutUint32(k[24:], uint32(serial)) // distinct for sure
 		k[31] &= 0x7f
 		return k
 	}
